@@ -149,6 +149,40 @@ fn p_lend_group_ref() {
     drop(parent);
     assert!(count(&keep) == 1, "C07 ctx_count_restored: after the parent and its borrowed children are gone the count is back to its starting value");
 }
+//@ prefix=p_lendown kind=property clause=a borrowed child holds its OWN clone of the context: with a context that is not reference counted (clone = deep copy, drop = free), using the child's context (to create an owned grandchild) after the call returned touches only live memory, and the grandchild keeps working after the parent is gone
+#[kani::proof]
+#[kani::unwind(3)]
+fn p_lendown_heap_ctx() {
+    let id: u32 = kani::any();
+    let keep = Arc::new(CtxPayload { magic: 0xC7 });
+    let imp = Imp { id, watch: Arc::downgrade(&keep), kid: Kid { id: id ^ 9 } };
+    let parent = trait_obj!((imp, HeapCtx::new()) as LenderMid);
+    let g = {
+        let mid = parent.lend_mid();
+        mid.grand(5)              // clones the CHILD's context
+    };
+    assert!(g.leaf() == 5 ^ id ^ 9, "C07 grandchild obtained through a borrowed child works");
+    drop(parent);
+    assert!(g.leaf() == 5 ^ id ^ 9, "C07 grandchild outlives the parent");
+    drop(g);
+    assert!(unsafe { HEAP_CTX_LIVE } >= 0, "C07 no context was released twice");
+    assert!(unsafe { HEAP_CTX_LIVE } == 0, "C07 ctx_count_restored: every context clone released once all derived objects are gone");
+}
+#[kani::proof]
+#[kani::unwind(3)]
+fn p_lendown_lifetime_mut() {
+    // (a context without function pointers keeps CBMC's search small should an uninitialised
+    // temporary ever be dropped)
+    let id: u32 = kani::any();
+    let keep = Arc::new(CtxPayload { magic: 0xC7 });
+    let imp = Imp { id, watch: Arc::downgrade(&keep), kid: Kid { id: id ^ 9 } };
+    let mut parent = trait_obj!((imp, HeapCtx::new()) as LenderLt);
+    { let k = parent.lend_lt(); assert!(k.leaf() == id ^ 9, "C07 lifetime-bounded mutable borrowed child works on the first call"); }
+    assert!(unsafe { HEAP_CTX_LIVE } >= 1, "C07 the parent still holds its context");
+    drop(parent);
+    assert!(unsafe { HEAP_CTX_LIVE } >= 0, "C07 no context was released twice");
+    assert!(unsafe { HEAP_CTX_LIVE } == 0, "C07 ctx_count_restored: every context clone released once all derived objects are gone");
+}
 //@ prefix=canary kind=canary clause=vacuity canary
 #[kani::proof]
 #[kani::unwind(3)]
